@@ -29,7 +29,8 @@ def tanh_projection(x: jax.Array, beta: float, eta: float) -> jax.Array:
     """
 
     is_inf = jnp.isinf(beta)
-    is_zero = beta == 0
+    # subnormal beta counts as zero: XLA flushes beta * eta to 0 there, which made the quotient 0/0
+    is_zero = jnp.abs(beta) < jnp.finfo(jnp.result_type(beta, float)).tiny
 
     # Double-where trick: substitute a safe finite beta before computing the tanh
     # formula so that no branch ever evaluates tanh(inf * x) or 0/0 — both of which
